@@ -23,7 +23,8 @@ import (
 //     fire ("armed on today's tree": a rule that no longer matches the construct it guards
 //     would pass vacuously forever);
 //   - every kept behaviour-preserving refactoring of the property's code
-//     (refactorings/<prop>-k, refactorings/r2/<prop>-k) is applied the same way — the rules
+//     (refactorings/<prop>-k, refactorings/r2/<prop>-k, refactorings/r3/<prop>-k — the last set is
+//     the held-out measurement of DESIGN §9.6: its known false alarms show up here as notes) is applied the same way — the rules
 //     must stay silent.
 //
 // Nothing is executed but the analyser. The outcome is recorded in the evidence
@@ -60,6 +61,7 @@ func neighbourhoodSweep(prop, repo, root string) (map[string]interface{}, []stri
 	add("seeded/"+prop+"-*", "seeded", "seeded/")
 	add("refactorings/"+prop+"-*", "refactoring", "refactorings/")
 	add("refactorings/r2/"+prop+"-*", "refactoring", "refactorings/r2/")
+	add("refactorings/r3/"+prop+"-*", "refactoring", "refactorings/r3/")
 	if len(jobs) == 0 {
 		return nil, nil
 	}
